@@ -89,7 +89,8 @@ class MatlabWrapper(CheckMixin, FormatMixin):
 
         # Ensure the template file is always picked up from the correct directory.
         dir_path = osp.dirname(osp.realpath(__file__))
-        with open(osp.join(dir_path, "matlab_wrapper.tpl")) as f:
+        with open(osp.join(dir_path, "matlab_wrapper.tpl"),
+                  encoding="UTF-8") as f:
             self.wrapper_file_headers = f.read()
 
     def add_class(self, instantiated_class):
@@ -1890,7 +1891,7 @@ class MatlabWrapper(CheckMixin, FormatMixin):
 
                 for sub_content in c[1]:
                     path_to_file = osp.join(path_to_folder, sub_content[0])
-                    with open(path_to_file, 'w') as f:
+                    with open(path_to_file, 'w', encoding="UTF-8") as f:
                         f.write(sub_content[1])
             else:
                 # c is a wrapped class
@@ -1902,7 +1903,7 @@ class MatlabWrapper(CheckMixin, FormatMixin):
                     except OSError:
                         pass
 
-                with open(path_to_file, 'w') as f:
+                with open(path_to_file, 'w', encoding="UTF-8") as f:
                     f.write(c[1])
 
     def wrap(self, files, path):
@@ -1910,7 +1911,7 @@ class MatlabWrapper(CheckMixin, FormatMixin):
         content = ""
         modules = {}
         for file in files:
-            with open(file, 'r') as f:
+            with open(file, 'r', encoding="UTF-8") as f:
                 # Keep the files apart: the last line of one file must not run
                 # into the first line of the next.
                 content += f.read() + "\n"
